@@ -30,6 +30,7 @@ type RunConfig struct {
 	ScheduleMode bool
 	MapOrderMode bool
 	MapOrderFilter string
+	BudgetObligation string // non-empty: exhausting MaxSteps is a violation of this obligation
 	PreemptBound int
 	PoolDirty    bool
 	Race         bool
@@ -193,6 +194,13 @@ func (e *Engine) runPath(h *ssa.Function, p Prefix, cfg RunConfig) (res *PathRes
 				res.Outcome = "fatal"
 				res.Detail = r.reason
 				e.safeRecordFailure("fatal", h.Name()+"/no-fatal", r.reason)
+			} else if r.reason == "budget" && cfg.BudgetObligation != "" {
+				// the harness states termination as an obligation: running out of the
+				// step budget is a counterexample (confirmed natively by a run that
+				// does not return), not an inconclusive path
+				res.Outcome = "hang"
+				res.Detail = fmt.Sprintf("no termination within %d SSA steps\n%s", cfg.MaxSteps, e.stackString())
+				e.safeRecordFailure("hang", cfg.BudgetObligation, res.Detail)
 			}
 		case goPanic:
 			res.Outcome = "panic"
